@@ -3,6 +3,7 @@
 //! 1 violation (VIOLATION line printed), 2 machinery error (never a verdict).
 mod engine;
 mod c10;
+mod c12;
 
 fn main() {
   let args: Vec<String> = std::env::args().collect();
@@ -49,6 +50,8 @@ fn main() {
   let code = match (id, replay_doc) {
     ("C10", None) => c10::run(&tier),
     ("C10", Some(d)) => c10::replay(&d),
+    ("C12", None) => c12::run(&tier),
+    ("C12", Some(d)) => c12::replay(&d),
     _ => {
       eprintln!("no check for {id} in this build");
       2
